@@ -376,6 +376,22 @@ func genRobust(c *ctx, emit func(ev)) {
 		call("attester.VerifyRequest", short.Marshal(), false)
 	}
 
+	// honest client requests for the empty origin name (32 zero bytes of padding) and a crafted all-zero / empty padded origin
+	for _, name := range []string{"", "\x00", "\x00\x00\x00"} {
+		st, err := type3.NewRateLimitedClientFromSecret(p384Scalar(c.seed, "client1")).CreateTokenRequest(randBytes(r, 8), randNonce(r),
+			p384Scalar(c.seed, "blind-empty"), w.a3.w.issuer.TokenKeyID(), w.a3.w.issuer.TokenKey(), name, w.a3.w.issuer.NameKey())
+		if err == nil {
+			call("t3.Evaluate", st.Request().Marshal(), false)
+		}
+	}
+	for _, n := range []int{0, 1, 32, 64} {
+		inner := type3.VerifNewInnerTokenRequest(w.a3.w.issuer.TokenKeyID()[0], randBytes(r, 256), make([]byte, n)).Marshal()
+		q := &type3.RateLimitedTokenRequest{RequestKey: w.a3reg.RequestKey, NameKeyID: w.a3reg.NameKeyID}
+		q.EncryptedTokenRequest = sealT3(w.a3.w.issuer.NameKey(), q.RequestKey, inner, true)
+		q.Signature = signT3(p384Scalar(c.seed, "client1"), p384Scalar(c.seed, "blind1"), q)
+		call("t3.Evaluate", q.Marshal(), false)
+	}
+
 	// requests / tokens whose fields have arbitrary lengths
 	rq := w.a3reg
 	for _, n := range []int{0, 1, 47, 48, 49, 95, 96, 97, 200} {
